@@ -5,8 +5,8 @@ V = os.path.dirname(os.path.dirname(os.path.abspath(__file__)))
 
 CLAIMED = {
  "C13": dict(
-    text="Proof of the share-or-copy machinery. Kani (full i32 domain): function contracts on the real Generation methods, lemmas over them, coherence of the collector's mark test with the cloner's share test on a real one-object heap. Verus (unbounded, bodies extracted every run): Value::generation, Cloner::{new, force_full_clone, deep_clone, deep_clone_inner, deep_clone_array, deep_clone_ptr (visited map keyed by object address; remembered copies are never forgotten)}, Gc::new_child_gc, Thread::can_share_values_with (parent-chain walk with an inductive invariant over a thread tree of any depth), Thread::deep_clone_value, RootedValue::re_root, the vm_push of RootedValue, <Reference as Userdata>::deep_clone, <Lazy as Userdata>::deep_clone, and the transfer sites send / reference set / st::set / lazy store (what is kept is the copy made for the owning thread): a pointer crosses uncopied only into its own heap or a descendant's; into an unrelated thread everything is copied; every pointer-carrying array representation has its elements cloned. Found and repaired the string-array defect.",
-    note="Trusted: env.rs stand-ins; the per-representation helpers deep_clone_str/data/closure/app and Userdata::deep_clone of other userdata are ASSUMED to return new objects of the receiving heap; thread-tree axiom (child = one level deeper, one generation younger, same global state); get_type_info stubbed in the Kani coherence harness. Not under contract: structural equality of copies, lifetime after the sender is dropped, the glue between the transfer-site units (uninterpreted holdable_by, established by the assumed deep_clone_value contract) and the generation rule proved in the clone unit (DESIGN 6.4).",
+    text="Proof of the share-or-copy machinery. Kani (full i32 domain): function contracts on the real Generation methods, lemmas over them, coherence of the collector's mark test with the cloner's share test on a real one-object heap. Verus (unbounded, bodies extracted every run): Value::generation, Cloner::{new, force_full_clone, deep_clone, deep_clone_inner, deep_clone_array, deep_clone_ptr (visited map keyed by object address; remembered copies are never forgotten)}, Gc::new_child_gc, Thread::can_share_values_with (parent-chain walk with an inductive invariant over a thread tree of any depth), Thread::deep_clone_value, RootedValue::re_root, the vm_push of RootedValue, <Reference as Userdata>::deep_clone, <Lazy as Userdata>::deep_clone, the construction step of the thread tree (Thread::new_thread: parent pointer, shared global state, collector one generation younger), and the transfer sites send / reference set / st::set / lazy store (what is kept is the copy made for the owning thread): a pointer crosses uncopied only into its own heap or a descendant's; into an unrelated thread everything is copied; every pointer-carrying array representation has its elements cloned. Found and repaired the string-array defect.",
+    note="Trusted: env.rs stand-ins; the per-representation helpers deep_clone_str/data/closure/app and Userdata::deep_clone of other userdata are ASSUMED to return new objects of the receiving heap; thread-tree axiom (child = one level deeper, one generation younger, same global state): its per-edge construction step is proved on new_thread's struct literal, the induction over the tree and that nothing re-parents a thread later stay assumed; get_type_info stubbed in the Kani coherence harness. Not under contract: structural equality of copies, lifetime after the sender is dropped, the glue between the transfer-site units (uninterpreted holdable_by, established by the assumed deep_clone_value contract) and the generation rule proved in the clone unit (DESIGN 6.4).",
     technique="Kani function contracts on compiled code + Verus contracts on mechanically extracted bodies (incl. an inductive loop invariant for the parent-chain walk)",
     design="2/C13"),
  "C17": dict(
@@ -20,22 +20,22 @@ CLAIMED = {
     technique="Verus contracts on extracted bodies + generated Kani harnesses over the interpreter arm table",
     design="2/C01"),
  "C06": dict(
-    text="Proof (Kani, full argument domains; &str arguments bounded to <= 2 chars and labelled bounded) that every scalar primitive registered in load_int/load_byte/load_char/load_float/load_string - the registered expression text itself, parsed from the tables every run - and each of the 18 arithmetic/comparison arms of the interpreter neither panics nor traps nor exhibits UB on any well-typed argument; Verus contracts on StackFrame::exit_scope (a locked frame is never popped), reset_stack (exactly the frames above the recorded level are removed), the error closure of call_thunk_top (whatever kind of error ends a top-level evaluation, the frames above the recorded level are removed), the ready path of return_future's poll closure (the primitive's frame is unlocked on every path), async_status_push (a failed push becomes Status::Error and cannot itself fail), the validation head of array::slice, std.random gen_int_range, std.io write_slice_file / read_file (the last three against documented contracts of dependencies). Found and repaired five classes of host-aborting primitives; found (and recorded as a known finding) that reset_stack does not reclaim the values of a failed run.",
+    text="Proof (Kani, full argument domains; &str arguments bounded to <= 2 chars and labelled bounded) that every scalar primitive registered in load_int/load_byte/load_char/load_float/load_string - the registered expression text itself, parsed from the tables every run - and each of the 18 arithmetic/comparison arms of the interpreter neither panics nor traps nor exhibits UB on any well-typed argument; Verus contracts on StackFrame::exit_scope (a locked frame is never popped), reset_stack (exactly the frames above the recorded level are removed), the error closures of call_thunk_top and execute_io_top (whatever kind of error ends a top-level evaluation, the frames above the recorded level are removed), host calls of gluon functions (call_any_first + the helper reset_after_error: a failed call is reported through the same stack reset), the ready path of return_future's poll closure (the primitive's frame is unlocked on every path), async_status_push (a failed push becomes Status::Error and cannot itself fail), the blanket async_push of synchronous results (frame unlocked whether or not the push fails), RuntimeResult::vm_push / IO::vm_push (Panic / Exception => Err, stack untouched), ValueArray::get (unchecked element read only behind index < len), the validation head of array::slice, std.random gen_int_range, std.io write_slice_file / read_file (the last three against documented contracts of dependencies). Found and repaired five classes of host-aborting primitives and the missing stack reset of failed host calls (Function::call); found (and recorded as a known finding) that reset_stack does not reclaim the values of a failed run.",
     note="Trusted: debug-profile semantics; alloc::fmt::format stubbed; pow's overflow trap asserted through checked_pow because Kani does not model it; assumed dependency contracts (rand random_range panics on an empty range, Vec::with_capacity panics above isize::MAX bytes, slice indexing panics out of range); 51 table entries (libm floats, string searchers, unicode tables, Thread-dependent) are skipped and listed in evidence; strings longer than 2 chars are not explored; userdata/regex/most IO primitives, unpack_and_call (macro-generated), the callers of call_thunk_top and the rest of the future plumbing are unverified; in the toplevel unit Context/Stack are projected on frame list + lock flag and reset_stack's contract is assumed (proved in the stack unit). Known finding C06/thread/reset_stack_values is reported, not repaired.",
     technique="generated Kani harnesses (one per primitive!() table entry and per arithmetic interpreter arm) + Verus contracts on extracted bodies",
     design="2/C06"),
  "C07": dict(
-    text="Proof of the three limit computations: Kani (symbolic counters, full usize domain) on the real Gc::alloc_owned (accounted memory never exceeds the limit; failure leaves the heap untouched) and check_collect; Verus on the real add_new_frame (frame entered iff len + max_stack_size <= limit), enter_scope / enter_scope_excess, on the per-instruction step of static stack accounting (adjust/emit/increase_stack/emit_call), on the tail flag of the && / || operands, on every TailCall arm of the interpreter (frame list shrinks and the new call reuses the returning function's slot: constant stack) on ExecuteContext::exit_scope, and on the head of the frame loop of OwnedContext::execute (every pass -- call, tail call, return -- polls the interrupt flag before dispatching). Found and repaired the header-not-counted defect.",
+    text="Proof of the three limit computations: Kani (symbolic counters, full usize domain) on the real Gc::alloc_owned (accounted memory never exceeds the limit; failure leaves the heap untouched) and check_collect; Verus on the real add_new_frame (frame entered iff len + max_stack_size <= limit), enter_scope / enter_scope_excess, on the per-instruction step of static stack accounting (adjust/emit/increase_stack/emit_call), on the tail flag of the && / || operands, on every TailCall arm of the interpreter (frame list shrinks and the new call reuses the returning function's slot: constant stack) on ExecuteContext::exit_scope, and on the head of the frame loop of OwnedContext::execute (every pass -- call, tail call, return -- polls the interrupt flag before dispatching). Also: a spawned thread inherits its spawner's memory limit (Gc::new_child_gc) and stack limit (Thread::new_thread). Found and repaired the header-not-counted defect and the unlimited stack of spawned threads.",
     note="Trusted: get_type_info stubbed; allocated_memory <= isize::MAX; no u32 wrap in len+max_stack_size; operand_fits; the interrupt flag is a pure read for one loop iteration and the rest of the loop body is not in the extracted head. That one pass of the loop takes bounded time (extern functions), native-stack depth and the induction over compile_ are not under contract.",
     technique="Kani harnesses on the real allocator + Verus contracts on extracted bodies",
     design="2/C07"),
  "C08": dict(
-    text="Partial proof: built-in operator fixity table (real OpTable::get, concrete enumeration, Kani); the span algebra (Span::new/to/between/until/with_*/subspan/from_offset, Location::shift; full u32 domain, Kani) that parser actions and 'spans delimit the text' are built from; and (Verus, block extracted from reparse every run) the shift/reduce step of the operator-precedence re-parse: lower precedence or equal+both-left reduces, higher or equal+both-right shifts, equal precedence with different associativity is reported as ConflictingFixities.",
-    note="No grouping theorem: the reparse loop, Infixes iterator, error recovery and final fold are not under contract; `make_op` is uninterpreted. The layout algorithm, tokenizer and grammar are NOT under contract. User-declared fixities overriding built-ins is only a structural Verus check (hash maps are intractable for CBMC).",
-    technique="Kani harnesses (complete: loop-free or concrete) on compiled code + Verus contract on a block extracted from reparse",
+    text="Partial proof: built-in operator fixity table (real OpTable::get, concrete enumeration, Kani); the span algebra (Span::new/to/between/until/with_*/subspan/from_offset, Location::shift; full u32 domain, Kani) that parser actions and 'spans delimit the text' are built from; and three Verus contracts on text extracted every run: the shift/reduce step of the operator-precedence re-parse (lower precedence or equal+both-left reduces, higher or equal+both-right shifts, equal precedence with different associativity is reported as ConflictingFixities), the final fold of reparse (operators still pending group to the right, in order, over all operands; inductive invariant + lemma; the closing assertion and unwraps cannot fire), and shrink_hidden_spans against a specification of where each expression kind visibly ends (singleton block flattening included).",
+    note="No grouping theorem for reparse as a whole: the token loop that connects step and final fold, the Infixes iterator and error recovery are not under contract; `make_op` is uninterpreted. shrink unit: AST projected on spans and last sub-expressions, slice patterns desugared to length tests, Span::new's ordering contract assumed there (proved by the Kani harness). The layout algorithm, tokenizer and grammar are NOT under contract. User-declared fixities overriding built-ins is only a structural Verus check (hash maps are intractable for CBMC).",
+    technique="Kani harnesses (complete: loop-free or concrete) on compiled code + Verus contracts on a block, a statement tail and a function extracted from the parser",
     design="2/C08"),
  "C20": dict(
-    text="Proof that span containment is total and trichotomous and is_macro_expanded exact (Kani, full u32 domain); that FindVisitor::select_spanned, for ANY number of ordered siblings and any cursor, terminates without panic and selects the first containing sibling / the right neighbour (Verus, unbounded, with Kani instances N = 1..4 as bounded twins on the compiled code); and that visit_one never panics, including on an empty sibling list. Found and repaired the empty-array panic.",
+    text="Proof that span containment is total and trichotomous and is_macro_expanded exact (Kani, full u32 domain); that FindVisitor::select_spanned, for ANY number of ordered siblings and any cursor, terminates without panic and selects the first containing sibling / the right neighbour (Verus, unbounded, with Kani instances N = 1..4 as bounded twins on the compiled code); and that visit_one and the tuple-pattern arm of visit_pattern never panic, including on an empty sibling list. Found and repaired the empty-array panic and the unit-pattern panic.",
     note="Verus side: Peekable over the sibling list modelled with std's peek/next semantics, the span closure as a field read, Span::containment's contract taken from the Kani proof. AST traversal (visit_expr/visit_pattern), suggestion scoping, type agreement, signature_help and metadata queries are not under contract.",
     technique="Kani harnesses on compiled code + Verus contract with inductive loop invariant on the extracted body",
     design="2/C20"),
